@@ -49,17 +49,20 @@ Why == IF ~P_parse THEN "parse" ELSE IF ~P_err THEN "err" ELSE IF ~P_nodes THEN 
 
 SameTags(a, b) == /\ Len(a) = Len(b)
                   /\ \A i \in 1..Len(a) : Len(a[i]) = Len(b[i]) /\ \A n \in 1..Len(a[i]) : ToSet(a[i][n]) = ToSet(b[i][n]) /\ Len(a[i][n]) = Len(b[i][n])
-Match == /\ Obs.err = st.err
-         /\ Obs.nodes = st.nodes
-         /\ SameTags(Obs.geom, st.geom) /\ SameTags(Obs.rw, st.rw)
-         /\ Len(Obs.dtags) = Len(st.dtags) /\ \A i \in 1..Len(st.dtags) : ToSet(Obs.dtags[i]) = ToSet(st.dtags[i]) /\ Len(Obs.dtags[i]) = Len(st.dtags[i])
-         /\ Obs.start = st.startOf
-         /\ Obs.was = (IF st.err = "" THEN st.was ELSE st.added)
-         /\ ToSet(Obs.handed) = ToSet(st.handed) /\ Len(Obs.handed) = Len(st.handed)
+M_err == Obs.err = st.err
+M_nodes == Obs.nodes = st.nodes
+M_tags == SameTags(Obs.geom, st.geom) /\ SameTags(Obs.rw, st.rw)
+M_restr == Len(Obs.dtags) = Len(st.dtags) /\ \A i \in 1..Len(st.dtags) : ToSet(Obs.dtags[i]) = ToSet(st.dtags[i]) /\ Len(Obs.dtags[i]) = Len(st.dtags[i])
+M_start == Obs.start = st.startOf
+M_lig == Obs.was = (IF \A i \in 1..Len(st.added) : st.added[i] = <<>> THEN st.was ELSE st.added)
+M_hand == ToSet(Obs.handed) = ToSet(st.handed) /\ Len(Obs.handed) = Len(st.handed)
+Match == M_err /\ M_nodes /\ M_tags /\ M_restr /\ M_start /\ M_lig /\ M_hand
+Differs == IF ~M_err THEN "err:" \o st.err ELSE IF ~M_nodes THEN "nodes" ELSE IF ~M_tags THEN "tags" ELSE IF ~M_restr THEN "restr"
+           ELSE IF ~M_start THEN "start" ELSE IF ~M_lig THEN "lig" ELSE IF ~M_hand THEN "hand" ELSE ""
 
 Judge == IF ~InDomain(case) THEN PrintT(<<"SKIP", ToJson([tid |-> tid])>>)
          ELSE IF AcceptP THEN (dev # {} \/ TLCSet(1, TLCGet(1) \cup {tid}))
-         ELSE PrintT(<<"RUN", ToJson([tid |-> tid, dev |-> SetToSeq(dev), match |-> Match, why |-> Why])>>)
+         ELSE PrintT(<<"RUN", ToJson([tid |-> tid, dev |-> SetToSeq(dev), match |-> Match, why |-> Why, differs |-> Differs])>>)
 Mark == Judge /\ (dev # {} \/ TLCSet(2, TLCGet(2) \cup {tid}))
 \* every record has been judged under the intended design (dev = {}); otherwise the run is a machinery failure
 AllJudged == IF TLCGet(2) = 1..N THEN PrintT(<<"ACCEPTED", ToJson(SetToSeq(TLCGet(1)))>>)
